@@ -104,6 +104,12 @@ class Oracle(BaseOracle):
     def __init__(self, st, unit, res):
         super().__init__(st, unit, res)
         self.seen = set()
+        if not st.hist and unit.get("part", 0) == 0:
+            # the seed itself is a state too
+            try:
+                self.check_proc(st.proc, None)
+            except Exception as ex:
+                res["errors"].append(f"seed check crashed: {type(ex).__name__}: {ex}")
 
     def after(self, ev, q, exc, outcome):
         if q is None:
@@ -136,7 +142,8 @@ class Oracle(BaseOracle):
                 return
             if False:
                 pass
-            elif "during typechecking" in why:
+            elif "during typechecking" in why and "does not depend on loop iterations" in why:
+                # a front-end-only typing rule about configuration writes in loops; scheduling may legitimately produce this
                 self.stat("skip:front-end-typing-rule-rejects-scheduled-program")
                 return
             self.violation(dict(base, oracle="reparse", kind="printed-text-rejected", err=_norm_err(why)),
@@ -165,7 +172,8 @@ class Oracle(BaseOracle):
                     return
         t2 = str(r)
         if t2 != txt:
-            self.violation(dict(base, oracle="reparse", kind="reprint-differs"), {"event": ev, "printed": txt, "reprinted": t2})
+            nz = re.sub(r"(?<![\w.])-0(?![\w.])", "0", txt) == re.sub(r"(?<![\w.])-0(?![\w.])", "0", t2)
+            self.violation(dict(base, oracle="reparse", kind="reprint-differs", only_negative_zero=nz), {"event": ev, "printed": txt, "reprinted": t2})
             return
         # interpreter equivalence (cheap: small domain)
         dk = dict(sizes=(1, 2), idxs=(0, 1), cfg_vals=(0, 1), max_vals=8)
